@@ -265,7 +265,9 @@ func (db *DB) collectGarbage() (collectedCount uint64, done bool, err error) {
 	}
 
 	// if gcIndex missing, we should set gcSize to zero.
-	if len(recycledItems) == 0 {
+	// (only then: candidates that were skipped because they were accessed
+	// during this run still hold their recorded counts)
+	if len(candidates) == 0 {
 		// force gc clean
 		currentCollectedCount = gcSize
 		releasedCount = gcSize
